@@ -19,7 +19,7 @@ ASSUMPTIONS = [
     "Python `re` (split/match, IGNORECASE), str.strip and set/frozenset hashing are trusted; the model's hand tokeniser is tied to them by the parse and malformed streams",
     "theorems are over the ==/!= fragment (what the property states); in/not-in atoms are covered by the correspondence and by atom-level lemmas only",
     "the `extra` semantics is the one of markers.py:SingleMarker.validate (== : member of the active set, != : not a member), without name canonicalisation",
-    "operands produced by invert (outside the property's quantifier) are compared model-vs-code but not judged by the oracle",
+    "operands of the in/not-in and malformed streams are compared model-vs-code but not judged by the oracle (outside the ==/!= fragment)",
 ]
 
 SEP = "\x01"
@@ -307,6 +307,23 @@ def probes_for(x: bool, a: str, b: str) -> list[str]:
 # streams
 # ----------------------------------------------------------------------------------------
 
+DUP_KEY = "extra-multi-duplicate-value"
+
+
+def dup_multi(c: Any) -> bool:
+    g = G()
+    if isinstance(c, g.MultiConstraint):
+        vals = [a.value for a in c.constraints]
+        return len(set(vals)) != len(vals)
+    if isinstance(c, g.UnionConstraint):
+        return any(dup_multi(m) for m in c.constraints)
+    return False
+
+
+def cls(d: str) -> str:
+    return d.split("[")[0].split("(")[0]
+
+
 def is_plain(s: str) -> bool:
     return SEP not in s
 
@@ -327,9 +344,9 @@ def check_pairs(ctx: core.Ctx, x: bool, pairs: list[tuple[str, str]], stream: st
         ctx.case(f"{pre}:{a}\0{b}", nontrivial=ok,
                  sample={"variant": "extra" if x else "generic", "a": a, "b": b, "probes": pr, "impl": i} if ok and len(a) + len(b) > 14 else None)
         if ok:
-            ctx.count(f"{stream}:intersect:" + (i[3].split("[")[0] if i[1] == "ok" else "err-" + i[2]))
-            ctx.count(f"{stream}:union:" + (i[8].split("[")[0] if i[6] == "ok" else "err-" + i[7]))
-            ctx.count(f"{stream}:invert:" + (i[13].split("[")[0] if i[11] == "ok" else "err-" + i[12]))
+            ctx.count(f"{stream}:intersect:" + (cls(i[3]) if i[1] == "ok" else "err-" + i[2]))
+            ctx.count(f"{stream}:union:" + (cls(i[8]) if i[6] == "ok" else "err-" + i[7]))
+            ctx.count(f"{stream}:invert:" + (cls(i[13]) if i[11] == "ok" else "err-" + i[12]))
             ctx.count(f"{stream}:allows_all={i[16]} allows_any={i[17]}")
         else:
             ctx.count(f"{stream}:operand-" + i[1])
@@ -339,14 +356,19 @@ def check_pairs(ctx: core.Ctx, x: bool, pairs: list[tuple[str, str]], stream: st
         if ok:
             fails = oracle(x, a, b, pr, objs)
             if fails:
+                kind, what = fails[0]
                 if judge and is_plain(a) and is_plain(b):
-                    kind, what = fails[0]
                     ctx.violate(f"{pre}:{kind}:{a!r},{b!r}", what, {"op": "pair", "x": x, "a": a, "b": b, "probes": pr})
+                elif judge and any(dup_multi(objs[k]) for k in ("a", "b")):
+                    # one class, one key: an ExtraMultiConstraint mentioning a value twice (only `invert` of a union
+                    # with a repeated member builds it) breaks ExtraMultiConstraint.union's two-member shortcut
+                    ctx.violate(DUP_KEY, what, {"op": "pair", "x": x, "a": a, "b": b, "probes": pr})
+                elif judge:
+                    ctx.violate(f"{pre}:chain:{kind}:{a!r},{b!r}", what, {"op": "pair", "x": x, "a": a, "b": b, "probes": pr})
                 else:
-                    for kind, what in fails[:1]:
-                        ctx.count(f"{stream}:outside-quantifier-oracle-fail:{kind}")
-                        if len(ctx.notes) < 8:
-                            ctx.notes.append("not judged (operand built with invert/algebra or in/not-in): " + what)
+                    ctx.count(f"{stream}:outside-quantifier-oracle-fail:{kind}")
+                    if len(ctx.notes) < 8:
+                        ctx.notes.append("not judged (in/not-in or malformed-stream operands): " + what)
     ctx.stream(stream, len(pairs), dis)
 
 
@@ -452,7 +474,12 @@ def replay(ctx: core.Ctx, payload: dict[str, Any]) -> bool:
         return False
     fails = oracle(x, a, b, pr, objs)
     for kind, what in fails[:1]:
-        ctx.violate(f"{'x' if x else 'g'}:{kind}:{a!r},{b!r}", what, w)
+        if any(dup_multi(objs[k]) for k in ("a", "b")):
+            ctx.violate(DUP_KEY, what, w)
+        elif is_plain(a) and is_plain(b):
+            ctx.violate(f"{'x' if x else 'g'}:{kind}:{a!r},{b!r}", what, w)
+        else:
+            ctx.violate(f"{'x' if x else 'g'}:chain:{kind}:{a!r},{b!r}", what, w)
     return bool(fails)
 
 
